@@ -1,6 +1,8 @@
 import HbsModel.Registry
 import HbsModel.Lemmas.Text
 import HbsModel.Props.C03
+import HbsModel.Props.C02
+import HbsModel.Lemmas.TildeValue
 /-
   C11  Whitespace control removes exactly the whitespace the rules name.
 -/
@@ -186,5 +188,83 @@ theorem comment_beside_text_keeps_whitespace (r : Registry) (fs : FS) (L c R : S
 /-- non-vacuity of both line shapes -/
 example : (trimEndBlank ['a', '\n', 'b', ' ', ' ']).getLast? = some 'b' ∧ trimStartBlank [' ', 'x', '\n'] = ['x', '\n'] := by
   decide
+
+/-! ### `~` on a value expression – at source level -/
+
+theorem pestWs_is_uniWs (c : Char) (h : isPestWs c = true) : isUniWs c = true := by
+  simp only [isPestWs, Bool.or_eq_true, beq_iff_eq] at h
+  rcases h with ((rfl | rfl) | rfl) | rfl <;> decide
+
+theorem trimStart_of_pestWs_only (R : Str) (h : R.dropWhile isPestWs = []) : trimStart R = [] := by
+  induction R with
+  | nil => rfl
+  | cons c t ih =>
+    by_cases hc : isPestWs c = true
+    · simp only [List.dropWhile_cons, hc, ↓reduceIte] at h
+      simp [trimStart, List.dropWhile_cons, pestWs_is_uniWs c hc]
+      exact ih h
+    · simp [List.dropWhile_cons, hc] at h
+
+/-- `{{~v~}}` -/
+abbrev tildeValueTag : Str := PlainText.tvSrc
+
+/-- **render(L ++ {{~v~}} ++ R) = trim_end(L) ++ escape(text of data.v) ++ trim_start(R)** – from the source string to the bytes,
+    for EVERY text `L` that may stand before a tag, EVERY text `R` without `{{`, every data value and escape function: a `~` on
+    either side of a value expression removes the whole whitespace run of the adjacent text (every `char::is_whitespace`
+    character, line breaks and non-ASCII spaces included) and nothing else – which is what deleting that whitespace from the
+    source by hand and writing `{{v}}` gives (`C02.value_between_texts_escaped_once`).  Through the regenerated grammar, the
+    loop of compile2 and the renderer. -/
+theorem tilde_value_trims_both_sides (r : Registry) (fs : FS) (L R : Str) (data j : Json) (hdev : r.dev = false)
+    (hL : L = [] ∨ PlainText.TextBeforeTag L) (hR : PlainText.noOpen R)
+    (hnohelper : assocGet r.helpers ['v'] = none)
+    (hsafe : Spec.indexSafe data [['v']] = true) (hj : Spec.descend data [['v']] = some j) :
+    r.renderTemplate fs (L ++ tildeValueTag ++ R) data = .ok (trimEnd L ++ r.escape j.render ++ trimStart R) := by
+  unfold Registry.renderTemplate Registry.renderTemplateToWrite Registry.renderTemplateWithContextToWrite
+    Registry.compileForRenderTemplate
+  obtain ⟨m, hcomp⟩ := PlainText.compile_text_tv_text L _ _ { preventIndent := r.preventIndent } hL (PlainText.textAfterTag_split R hR)
+  rw [← PlainText.split_ws R] at hcomp
+  rw [hcomp]
+  simp only [Registry.renderResolved, hdev, Bool.not_false, ↓reduceIte]
+  let ets : List (Elem × Str) := (if L = [] then [] else [(.raw (trimEnd L), trimEnd L)]) ++ [(.expr PlainText.valHT, r.escape j.render)]
+    ++ (if R.dropWhile isPestWs = [] then [] else [(.raw (trimStart R), trimStart R)])
+  have hel : (PlainText.leftT L (trimEnd L)).elements ++ [Elem.expr PlainText.valHT]
+      ++ (if R.dropWhile isPestWs = [] then [] else [Elem.raw (trimStart R)]) = ets.map (·.1) := by
+    simp only [ets]
+    by_cases hLe : L = [] <;> by_cases hRe : R.dropWhile isPestWs = [] <;> simp [hLe, hRe, PlainText.leftT, Tmpl.empty, Tmpl.elements]
+  have htxt : (ets.map (·.2)).flatten = trimEnd L ++ r.escape j.render ++ trimStart R := by
+    simp only [ets]
+    by_cases hLe : L = []
+    · subst hLe
+      by_cases hRe : R.dropWhile isPestWs = []
+      · simp [hRe, trimStart_of_pestWs_only R hRe, trimEnd, dropWhileEnd]
+      · simp [hRe, trimEnd, dropWhileEnd]
+    · by_cases hRe : R.dropWhile isPestWs = []
+      · simp [hLe, hRe, trimStart_of_pestWs_only R hRe]
+      · simp [hLe, hRe]
+  rw [hel]
+  have hw : ∀ p ∈ ets, WritesText r data { ({ rootTemplate := none } : RC) with currentTemplate := none } p.1 p.2 := by
+    intro p hp
+    simp only [ets, List.mem_append, List.mem_singleton] at hp
+    rcases hp with (hp | rfl) | hp
+    · split at hp
+      · simp at hp
+      · simp at hp; subst hp; exact writes_raw r data _ rfl _
+    · exact C02.value_writes_escaped r data j _ rfl rfl rfl rfl rfl hnohelper hsafe hj
+    · split at hp
+      · simp at hp
+      · simp at hp; subst hp; exact writes_raw r data _ rfl _
+  have hlen : ets.length + 12 ≤ renderFuel := by
+    have h1 : (if L = [] then [] else [((Elem.raw (trimEnd L), trimEnd L) : Elem × Str)]).length ≤ 1 := by split <;> simp
+    have h2 : (if R.dropWhile isPestWs = [] then [] else [((Elem.raw (trimStart R), trimStart R) : Elem × Str)]).length ≤ 1 := by split <;> simp
+    simp only [ets, List.length_append, List.length_singleton]
+    have : renderFuel = 4000 := rfl
+    omega
+  have := render_writes_template r data none ets m { rootTemplate := none } hlen hw
+  simp only [Tmpl.name] at this ⊢
+  rw [this, htxt]
+
+/-- non-vacuity: text with a line break, a tab and a no-break space next to the tag on either side -/
+example : PlainText.TextBeforeTag ['a', '\n', '\t', '\u00a0'] ∧ trimEnd ['a', '\n', '\t', '\u00a0'] = ['a'] ∧ trimStart ['\u3000', '\n', 'z', ' '] = ['z', ' '] := by
+  refine ⟨⟨by simp [PlainText.noOpen], by simp, by simp⟩, by decide, by decide⟩
 
 end Hbs.C11
